@@ -7,6 +7,7 @@ import io
 import os
 from pathlib import Path
 
+from .probe import staging_name
 from . import absstate
 from .common import (DEFAULT_ALGOS, Outcome, call, load_repo, open_store, read_all_and_close,
                      jsonable, DEFAULT_NS)
@@ -362,9 +363,9 @@ def wipe_store(root):
             continue
         for name in os.listdir(d):
             p = os.path.join(d, name)
-            if sub == "refs" and name in ("pids", "cids", "tmp"):
+            if sub == "refs" and name in ("pids", "cids"):
                 continue
-            if name == "tmp" and sub in ("objects", "metadata"):
+            if sub in ("objects", "metadata", "refs") and os.path.isdir(p) and staging_name(name):
                 for t in os.listdir(p):
                     tp = os.path.join(p, t)
                     shutil.rmtree(tp, ignore_errors=True) if os.path.isdir(tp) else os.remove(tp)
@@ -373,10 +374,6 @@ def wipe_store(root):
                 shutil.rmtree(p, ignore_errors=True)
             else:
                 os.remove(p)
-    t = os.path.join(root, "refs", "tmp")
-    if os.path.isdir(t):
-        for name in os.listdir(t):
-            os.remove(os.path.join(t, name))
 
 
 class WorldPool:
